@@ -142,7 +142,8 @@ def _maps(draw, n, idpool):
 
 @st.composite
 def program_strategy(draw):
-    pool = st.integers(1, 12)
+    from vlib.gen_maps import SPECIAL_IDS
+    pool = st.one_of(st.integers(0, 12), st.integers(0, 12), st.sampled_from(SPECIAL_IDS[:9]))
     refs = _maps(draw, draw(st.integers(1, 5)), pool)
     same = draw(st.integers(0, 2)) == 0
     queries = refs if same else _maps(draw, draw(st.integers(1, 5)), pool)
@@ -161,7 +162,8 @@ def program_strategy(draw):
 @st.composite
 def strategy(draw):
     n = draw(st.integers(1, 8))
-    ids = draw(st.lists(st.one_of(st.integers(1, 30), st.integers(1, 10 ** 6)), min_size=n, max_size=n, unique=True))
+    from vlib.gen_maps import molecule_ids
+    ids = draw(st.lists(molecule_ids(st.integers(0, 30), st.integers(1, 10 ** 6)), min_size=n, max_size=n, unique=True))
     maps = []
     for i in ids:
         k = draw(st.one_of(st.integers(0, 3), st.integers(0, 40)))
